@@ -150,6 +150,16 @@ func c20Render(ops []c20Op) ([]c20Step, error) {
 			s.Src = fmt.Sprintf("%s.mp = %s.mp", h, g)
 			s.Pre = fmt.Sprintf("dict(%s.mp)", g)
 			s.Chk = fmt.Sprintf("dict(%s.mp) == _pre", h)
+		case "setmmnew":
+			s.Src = fmt.Sprintf("%s.mm = {\"k\": T(i = %s)}", h, k)
+			s.Chk = fmt.Sprintf("len(%s.mm) == 1 and str(%s.mm[\"k\"]) == str(T(i = %s))", h, h, k)
+		case "setmm":
+			s.Src = fmt.Sprintf("%s.mm = {\"k\": %s}", h, g)
+			s.Pre = fmt.Sprintf("str(%s)", g)
+			s.Chk = fmt.Sprintf("len(%s.mm) == 1 and str(%s.mm[\"k\"]) == _pre", h, h)
+		case "mm0.seti":
+			s.Src = fmt.Sprintf("%s.mm[\"k\"].i = %s", h, k)
+			s.Chk = fmt.Sprintf("%s.mm[\"k\"].i == %s", h, k)
 		case "sub.seti":
 			s.Src = fmt.Sprintf("%s.sub.i = %s", h, k)
 			s.Chk = fmt.Sprintf("%s.sub.i == %s", h, k)
@@ -180,6 +190,24 @@ func c20Render(ops []c20Op) ([]c20Step, error) {
 		case "view.rm0":
 			nh++
 			s.Src = fmt.Sprintf("%s = %s.rm[0]", hn(nh), h)
+		case "view.mm0":
+			nh++
+			s.Src = fmt.Sprintf("%s = %s.mm[\"k\"]", hn(nh), h)
+		// Snapshot routes: the entries of the container are copied into a new Starlark value
+		// first (MapField.Items() for dict(), dict.update and ** expansion - a map field has
+		// no .items() / .values() methods of its own; iteration for list()).
+		case "snap.mm0":
+			nh++
+			s.Src = fmt.Sprintf("%s = dict(%s.mm)[\"k\"]", hn(nh), h)
+		case "vals.mm0":
+			nh++
+			s.Src = fmt.Sprintf("_d = {}; _d.update(%s.mm); %s = _d.values()[0]", h, hn(nh))
+		case "items.mm0":
+			nh++
+			s.Src = fmt.Sprintf("%s = (lambda **kw: kw.items()[0][1])(**%s.mm)", hn(nh), h)
+		case "snap.rm0":
+			nh++
+			s.Src = fmt.Sprintf("%s = list(%s.rm)[0]", hn(nh), h)
 		case "v.append":
 			s.Src = fmt.Sprintf("%s.append(%s)", h, k)
 			s.Pre = fmt.Sprintf("list(%s) + [%s]", h, k)
@@ -212,6 +240,9 @@ func c20Render(ops []c20Op) ([]c20Step, error) {
 		case "clr.mp":
 			s.Src = fmt.Sprintf("%s.mp = None", h)
 			s.Chk = fmt.Sprintf("dict(%s.mp) == {}", h)
+		case "clr.mm":
+			s.Src = fmt.Sprintf("%s.mm = None", h)
+			s.Chk = fmt.Sprintf("dict(%s.mm) == {}", h)
 		case "freeze":
 			s.Src = fmt.Sprintf("freeze(%s)", h)
 		default:
@@ -230,6 +261,7 @@ type c20Tree struct {
 	R    []int
 	Rm   []*c20Tree
 	A, B int
+	Mm   []*c20Tree // entries of the map<string, T> field: none, or the one under key "k"
 }
 
 func (t *c20Tree) canon(sb *strings.Builder) {
@@ -251,7 +283,14 @@ func (t *c20Tree) canon(sb *strings.Builder) {
 		}
 		x.canon(sb)
 	}
-	fmt.Fprintf(sb, "],mp:{a:%d,b:%d}}", t.A, t.B)
+	fmt.Fprintf(sb, "],mp:{a:%d,b:%d},mm:[", t.A, t.B)
+	for i, x := range t.Mm {
+		if i > 0 {
+			sb.WriteByte(',')
+		}
+		x.canon(sb)
+	}
+	sb.WriteString("]}")
 }
 
 func (t *c20Tree) String() string {
@@ -316,6 +355,19 @@ func (t *c20Tree) render(sb *strings.Builder) {
 		}
 		sb.WriteByte('}')
 	}
+	if len(t.Mm) > 0 {
+		// a map field prints like a dict: {"k": c20.T(...)}
+		sep("mm")
+		sb.WriteByte('{')
+		for i, x := range t.Mm {
+			if i > 0 {
+				sb.WriteString(", ")
+			}
+			sb.WriteString("\"k\": ")
+			x.render(sb)
+		}
+		sb.WriteByte('}')
+	}
 	sb.WriteByte(')')
 }
 
@@ -329,6 +381,7 @@ type c20TreeJSON struct {
 		A int `json:"a"`
 		B int `json:"b"`
 	} `json:"mp"`
+	Mm []*c20TreeJSON `json:"mm"`
 }
 
 func (j *c20TreeJSON) tree() *c20Tree {
@@ -338,6 +391,9 @@ func (j *c20TreeJSON) tree() *c20Tree {
 	}
 	for _, x := range j.Rm {
 		t.Rm = append(t.Rm, x.tree())
+	}
+	for _, x := range j.Mm {
+		t.Mm = append(t.Mm, x.tree())
 	}
 	return t
 }
@@ -405,6 +461,7 @@ func (ob *c20Observer) isSet(m *starlarkproto.Message, f string) bool {
 const (
 	c20MaxDepth = 8
 	c20Cyclic   = -998
+	c20BadEntry = -996
 )
 
 func (t *c20Tree) cyclic() bool {
@@ -415,6 +472,11 @@ func (t *c20Tree) cyclic() bool {
 		return true
 	}
 	for _, x := range t.Rm {
+		if x.cyclic() {
+			return true
+		}
+	}
+	for _, x := range t.Mm {
 		if x.cyclic() {
 			return true
 		}
@@ -458,6 +520,20 @@ func (ob *c20Observer) msgTree(m *starlarkproto.Message, depth int) *c20Tree {
 	if v, _ := m.Attr("mp"); v != nil {
 		if mf, ok := v.(*starlarkproto.MapField); ok {
 			t.A, t.B = ob.mapAB(mf)
+		}
+	}
+	if v, _ := m.Attr("mm"); v != nil {
+		if mf, ok := v.(*starlarkproto.MapField); ok {
+			if x, found, _ := mf.Get(starlark.String("k")); found {
+				if s, ok := x.(*starlarkproto.Message); ok {
+					t.Mm = append(t.Mm, ob.msgTree(s, depth+1))
+				}
+			}
+			if mf.Len() != len(t.Mm) {
+				// entries under other keys, or an entry that is not a message:
+				// never equal to a predicted tree
+				t.Mm = append(t.Mm, &c20Tree{I: c20BadEntry})
+			}
 		}
 	}
 	return t
